@@ -71,7 +71,8 @@ type Case struct {
 	GroupAs    string    `json:"group_as,omitempty"`
 	Init       []gen.Row `json:"init"`
 	Ops        []Op      `json:"ops"`
-	Conc       int       `json:"conc"` // 0 none, otherwise number of unrelated keys a background goroutine keeps upserting/deleting
+	Conc       int       `json:"conc"`            // 0 none, otherwise number of unrelated keys a background goroutine keeps upserting/deleting
+	Burst      int       `json:"burst,omitempty"` // direct mode: at the end this many goroutines call EmitSync concurrently with rows of different keys
 }
 
 // ---- names ----------------------------------------------------------------------------------
@@ -585,6 +586,9 @@ func genCase(t *rapid.T) Case {
 	if rapid.IntRange(0, 3).Draw(t, "conc") == 0 {
 		c.Conc = rapid.IntRange(1, 4).Draw(t, "nconc")
 	}
+	if c.Mode == "direct" && rapid.IntRange(0, 3).Draw(t, "burst") == 0 {
+		c.Burst = rapid.IntRange(2, 4).Draw(t, "nburst")
+	}
 	return c
 }
 
@@ -598,7 +602,7 @@ var spec = pbt.Spec[Case]{
 		"look-alikes (1, 1.0, '1', '1.0', -0, 2^53+1) and separator-bearing strings; direct path (SELECT of stream and table columns with " +
 		"and without AS, SELECT *, WHERE on a joined column) and GROUP BY a joined column over CountingWindow(N); history of 1-24 ops " +
 		"Upsert (source and UpsertTable) / Delete (tuple and scalar form) / EmitSync / Emit with barriers before every table change; " +
-		"optional background goroutine upserting and deleting unrelated keys. Oracle: model table with typed componentwise key equality. " +
+		"optional background goroutine upserting and deleting unrelated keys; optionally a final burst of 2-4 goroutines calling EmitSync concurrently with rows of different keys (table rows' keys and keys that match nothing). Oracle: model table with typed componentwise key equality. " +
 		"non-trivial = an upsert/delete of a key between two lookups of that key, or a lookup whose key is a numeric/string or " +
 		"numeric-type look-alike of a table key; distinct = hash of the case JSON",
 	Assumptions: []string{
@@ -611,6 +615,7 @@ var spec = pbt.Spec[Case]{
 	Gen:      genCase,
 	Run:      runCase,
 	Features: features,
+	WAL:      true, // built with -race: a detected race ends the process; the logged case is the replay
 }
 
 func TestProp(t *testing.T)    { pbt.RunProp(t, spec) }
